@@ -78,9 +78,9 @@ def _decode_hex_char(value: str, index: int, token: Token) -> tuple[int, int]:
         raise PestGrammarSyntaxError("unclosed Unicode escape sequence", token=token)
 
     hex_digit_length = closing_brace_index - index
-    if hex_digit_length not in (2, 4, 6):
+    if not 2 <= hex_digit_length <= 6:  # noqa: PLR2004
         raise PestGrammarSyntaxError(
-            "expected \\u{00}, \\u{0000} or \\u{000000}", token=token
+            "expected two to six hexadecimal digits in \\u{...}", token=token
         )
 
     codepoint = _parse_hex_digits(value[index : index + hex_digit_length], token)
